@@ -29,7 +29,7 @@ SPACE = {
     "bnd": ["none", "x2", "all", "one_deep"],
     "noutput": [1, 2, 5],
     "key_width": [8, 16],
-    "hydro": ["rvp", "two", "mhd", "odd"],
+    "hydro": ["rvp", "two", "mhd", "odd", "rvp-rev", "mhd-rev"],
     "grav": [False, True],
     "rt": [None, "rt2", "rt4"],
     "units": [[1.0, 1.0, 1.0, 1.0], [2.0, 3.0, 5.0, 2.0], [1.66e-24, 3.08e18, 3.15e13, 4.0]],
